@@ -52,6 +52,7 @@ fn layout_family(fam: u64, n: usize, rng: &mut Rng, max_files: usize) -> Layout 
         files,
         xor_key: None,
         magic_mode: 0,
+        xor_symlink: false,
         extra_files: vec![],
     }
 }
